@@ -155,7 +155,7 @@ pub fn main(args: &[String]) {
         .collect();
     let cases: Vec<&Value> = rows.iter().filter(|r| r.get("meta").is_none()).collect();
     let res = par_map(&cases, threads(), |i, c| {
-        let mm = check_case(i, c, &targets, 6);
+        let mm = check_case(mix(i), c, &targets, 6);
         mm.into_iter().take(1).map(|m| json!({"case": i, "config": {"root": c["root"], "loggers": c["loggers"]}, "mismatch": m})).collect()
     });
     write_ndjson(&args[1], &res);
